@@ -219,7 +219,7 @@ func builders(r *RunCtx) {
 	for site, n := range sim.siteCounts {
 		r.countN("probe.yield."+site, n)
 	}
-	r.state(hashString(string(sim.schedTrace)))
+	r.sched(sim)
 	if mon != nil {
 		r.countN("probe.pool.builder-reused", len(mon.lastPut))
 		r.countN("probe.pool.object-reused-across-tasks", mon.crossTask)
